@@ -433,10 +433,17 @@ def same_term(ob, found, expected, what, where=None, vocab=None):
         return False
     # operators that stand for a builtin / method the evaluator did not interpret (it only recorded the call): a value
     # that contains one where the specification has none is not known, which is not a difference
-    unint = sorted({x[1] for x in T.walk(found) if T.is_op(x) and x[1] in UNINTERPRETED_OPS}
+    def _closed(t_):
+        if T.is_const(t_):
+            return True
+        if T.tag(t_) in ('tuple', 'list'):
+            return all(_closed(i_) for i_ in t_[1])
+        return False
+    unint = sorted({x[1] for x in T.walk(found) if T.is_op(x) and x[1] in UNINTERPRETED_OPS and all(_closed(a_) for a_ in x[2:])}
                    - ({x[1] for x in T.walk(expected) if T.is_op(x)} if expected is not None else set()))
     if unint:
-        ob.undecided('%s: the value goes through %s, which the evaluator does not interpret; not compared' % (what, ', '.join(unint)), where)
+        # a call on constants only that the evaluator merely recorded: it has a value the evaluator failed to compute
+        ob.undecided('%s: the value contains %s applied to constants, which the evaluator does not fold; not compared' % (what, ', '.join(unint)), where)
         return False
     d = T.first_difference(found, expected)
     path, a, b = d if d else ('', found, expected)
